@@ -1,8 +1,167 @@
-(* Properties_C13.v — placeholder while the proofs are being developed in a scratch directory *)
-From Coq Require Import List ZArith Lia.
-From V Require Import Dump.
+(* Properties_C13.v — property C13 (a dataset written as text and loaded back encodes to the identical message) as
+   theorems about the model Dump.v of bufr_fdump_dataset / bufr_load_header / bufr_load_datasubsets.
+   Only statements, `exact`, Print Assumptions, and Examples showing that the hypotheses are satisfiable.
+   fm / fq select the loader variant: false = the code as it is, true = with proposed_fixes/C13_rbrace_after_meta.md
+   resp. C13_quoted_msng.md applied (the check detects which variant the tree under test has). *)
+From Coq Require Import List ZArith Arith Lia Bool.
+From V Require Import Dump DumpProof.
 Import ListNotations.
 Local Open Scope Z_scope.
-Theorem C13_placeholder : forall n, print_scaled n 0 = print_scaled n 0.
-Proof. reflexivity. Qed.
-Print Assumptions C13_placeholder.
+
+(* ---- (a) numeric values ---- *)
+(* the numeral written for the element value n/10^s (n = raw + reference) is read back as exactly n/10^s,
+   for every scale (negative scales print the integer with one fractional zero) and every sign *)
+Theorem C13_parse_print_id : forall n s, exists me, parse_decimal (print_scaled n s) = Some me /\ dec_denotes me n s.
+Proof. exact parse_print_id. Qed.
+Print Assumptions C13_parse_print_id.
+
+(* hence re-quantising at the same scale and reference gives the raw value back *)
+Theorem C13_numeric_requantises : forall i ref s, exists me,
+  parse_decimal (print_scaled (i + ref) s) = Some me /\ requant me s ref = i.
+Proof. exact requant_parse_print. Qed.
+Print Assumptions C13_numeric_requantises.
+
+(* the same through glibc: printf and strtod enter only by their decimal contract (tested by the check) *)
+Theorem C13_numeric_roundtrip_libc : forall (fmt_f : Z -> Z -> str) (strtod_dec : str -> option (Z * Z)),
+  (forall n s, libc_range n s -> fmt_f n s = print_scaled n s) ->
+  (forall l me, parse_decimal l = Some me -> strtod_dec l = Some me) ->
+  forall i ref s, libc_range (i + ref) s ->
+  exists me, strtod_dec (fmt_f (i + ref) s) = Some me /\ dec_denotes me (i + ref) s /\ requant me s ref = i.
+Proof. exact numeric_text_roundtrip_libc. Qed.
+Print Assumptions C13_numeric_roundtrip_libc.
+
+(* trim-zero mode (bufr_set_trimzero, used for values printed without a scale): removing trailing zeros keeps the value *)
+Theorem C13_trim_zero_keeps_value : forall n s, 0 < s ->
+  exists me, parse_decimal (trim_zeros (print_scaled n s)) = Some me /\ dec_value_eq me n s.
+Proof. exact trim_zeros_value. Qed.
+Print Assumptions C13_trim_zero_keeps_value.
+
+(* ---- (b) flag tables ---- *)
+Theorem C13_binary_roundtrip : forall w v, 1 <= w <= 63 -> 0 <= v < 2 ^ w ->
+  str_is_binary (print_binary w v) = true /\ binary_to_int (print_binary w v) = v /\ length (print_binary w v) = Z.to_nat w.
+Proof. exact binary_roundtrip. Qed.
+Print Assumptions C13_binary_roundtrip.
+
+(* width 64 is outside: the uint64_t shift in bufr_binary_to_int wraps (no Table B flag table is that wide) *)
+Theorem C13_binary_64_refuted : exists v, 0 <= v < 2 ^ 64 /\ binary_to_int (print_binary 64 v) <> v.
+Proof. exact binary_64_refuted. Qed.
+Print Assumptions C13_binary_64_refuted.
+
+(* ---- (c)-(f) one line: descriptor, {meta} comment, associated field, value of every kind ---- *)
+Theorem C13_line_roundtrip : forall fm fq vt it, di_skipped it = false -> item_ok fm fq vt it ->
+  exists rest, classify (print_item it) = L_data (di_desc it) rest /\ load_rest fm fq vt rest = expected_lval it.
+Proof. exact line_roundtrip. Qed.
+Print Assumptions C13_line_roundtrip.
+
+Theorem C13_skipped_line : forall fm fq vt it, di_skipped it = true -> 0 <= di_desc it ->
+  classify (print_item it) = (if di_ignored it then L_comment else L_data (di_desc it) [10]) /\
+  load_rest fm fq vt [10] = mkLV None TV_none.
+Proof. exact skipped_line. Qed.
+Print Assumptions C13_skipped_line.
+
+(* the property at full strength for one line: every string the format can carry (no NUL, LF, CR; not empty), with no
+   further side condition *)
+Definition C13_line_full_statement (fm fq:bool) : Prop :=
+  forall vt it, di_skipped it = false -> item_ok true true vt it ->
+  exists rest, classify (print_item it) = L_data (di_desc it) rest /\ load_rest fm fq vt rest = expected_lval it.
+Theorem C13_line_full_with_fixes : C13_line_full_statement true true.
+Proof. exact (fun vt it => line_roundtrip true true vt it). Qed.
+Print Assumptions C13_line_full_with_fixes.
+
+(* the current code: partial (no '}' in a string that follows a {..} comment; the string is not "MSNG") ... *)
+Theorem C13_line_roundtrip_current_partial : forall vt it, di_skipped it = false -> item_ok false false vt it ->
+  exists rest, classify (print_item it) = L_data (di_desc it) rest /\ load_rest false false vt rest = expected_lval it.
+Proof. exact (line_roundtrip false false). Qed.
+Print Assumptions C13_line_roundtrip_current_partial.
+
+(* ... and refuted without these side conditions *)
+Theorem C13_rbrace_refuted : exists it,
+  item_ok true false (VT_STR 4) it /\ di_skipped it = false /\
+  load_rest true false (VT_STR 4) (rest_of (print_item it)) = expected_lval it /\
+  load_rest false false (VT_STR 4) (rest_of (print_item it)) <> expected_lval it.
+Proof. exact rbrace_refuted. Qed.
+Print Assumptions C13_rbrace_refuted.
+
+Theorem C13_rbrace_crash :
+  lv_val (load_rest false false (VT_STR 4) (rest_of (print_item (mk_str_item 1015 (Some [123;82;61;49;125]) [65;66;67;125])))) = TV_crash.
+Proof. exact rbrace_crash. Qed.
+Print Assumptions C13_rbrace_crash.
+
+Theorem C13_quoted_msng_refuted : forall fm,
+  load_rest fm false (VT_STR 4) (rest_of (print_item (mk_str_item 1015 None s_MSNG))) = mkLV None TV_missing /\
+  load_rest fm true (VT_STR 4) (rest_of (print_item (mk_str_item 1015 None s_MSNG))) = mkLV None (TV_str s_MSNG).
+Proof. exact quoted_msng_refuted. Qed.
+Print Assumptions C13_quoted_msng_refuted.
+
+(* ---- one subset: the loader's descriptor matching (advance over skipped nodes, look-ahead) ---- *)
+Theorem C13_dataset_text_roundtrip : forall fm fq items nodes, compat_all fm fq items nodes ->
+  exists pend, all_skipped pend /\
+    load_subset_lines fm fq nodes (map print_item items ++ [[c_nl]]) [] = LR_ok (outputs items nodes) pend.
+Proof. exact subset_roundtrip. Qed.
+Print Assumptions C13_dataset_text_roundtrip.
+
+(* nested delayed replication: the library's flags violate `compat` (a commented line for a node the loader has not skipped) *)
+Theorem C13_nested_replication_refuted : forall fm fq,
+  load_subset_lines fm fq nested_nodes (map print_item (nested_items true) ++ [[c_nl]]) [] = LR_mismatch /\
+  load_subset_lines fm fq nested_nodes (map print_item (nested_items false) ++ [[c_nl]]) [] = LR_ok (outputs (nested_items false) nested_nodes) [].
+Proof. exact nested_replication_refuted. Qed.
+Print Assumptions C13_nested_replication_refuted.
+
+(* ---- header keys ---- *)
+Theorem C13_header_roundtrip : forall h0 h L marker, classify_hdr marker = H_subset ->
+  load_header h0 (print_header h ++ marker :: L) = (loaded_header h0 h, true, marker :: L).
+Proof. exact header_roundtrip. Qed.
+Print Assumptions C13_header_roundtrip.
+
+Theorem C13_header_values : forall h0 h, length (h_vals h0) = 17%nat -> length (h_vals h) = 17%nat ->
+  let h' := loaded_header h0 h in
+  nth 0 (h_vals h') 0 = nth 0 (h_vals h0) 0 /\
+  (forall k, (1 <= k <= 16)%nat -> k <> 3%nat -> nth k (h_vals h') 0 = nth k (h_vals h) 0) /\
+  nth 3 (h_vals h') 0 = (if 3 <=? nth 0 (h_vals h) 0 then nth 3 (h_vals h) 0 else nth 3 (h_vals h0) 0) /\
+  h_string h' = (match h_string h with Some s => Some (c_string s) | None => h_string h0 end).
+Proof. exact header_values. Qed.
+Print Assumptions C13_header_values.
+
+(* ---- a whole dataset, and several datasets in one file ---- *)
+Theorem C13_dataset_roundtrip : forall fm fq h0 h subsets nodes rest,
+  subsets <> [] -> compat_subsets fm fq subsets nodes ->
+  (rest = [] \/ exists l r, rest = l :: r /\ classify l = L_edition) ->
+  exists res, load_dataset fm fq h0 nodes (print_dataset h subsets ++ rest) = (DS_ok (loaded_header h0 h) res, rest) /\
+              map fst res = outputs_subsets subsets nodes /\ Forall (fun r => all_skipped (snd r)) res.
+Proof. exact dataset_roundtrip. Qed.
+Print Assumptions C13_dataset_roundtrip.
+
+Theorem C13_multi_dataset_order : forall fm fq ds h0 fuel, Forall (dset_ok fm fq) ds -> (length ds <= fuel)%nat ->
+  let res := load_file fm fq h0 (map ds_nodes ds) fuel (file_text ds) in
+  map fst res = loaded_headers h0 ds /\
+  map (fun r => map fst (snd r)) res = map (fun d => outputs_subsets (ds_subsets d) (ds_nodes d)) ds /\
+  Forall (fun r => Forall (fun s => all_skipped (snd s)) (snd r)) res.
+Proof. exact multi_dataset_order. Qed.
+Print Assumptions C13_multi_dataset_order.
+
+(* the message: any encoder that is a function of the header values and of the (descriptor, associated field, value)
+   triples of every subset gives the same message for the loaded datasets as for the original ones *)
+Theorem C13_same_message : forall (Msg:Type) (encode : header -> list (list (Z * lval)) -> Msg) fm fq ds h0 fuel,
+  Forall (dset_ok fm fq) ds -> (length ds <= fuel)%nat ->
+  map (fun r => encode (fst r) (map fst (snd r))) (load_file fm fq h0 (map ds_nodes ds) fuel (file_text ds)) =
+  map (fun p => encode (fst p) (outputs_subsets (ds_subsets (snd p)) (ds_nodes (snd p)))) (combine (loaded_headers h0 ds) ds).
+Proof. exact same_message. Qed.
+Print Assumptions C13_same_message.
+
+(* ---- fgets(ligne, 2048, fp): the text is cut back into the lines written, no line being longer than 2047 octets ---- *)
+Theorem C13_fgets_lines : forall ls, Forall text_line ls -> file_lines (concat ls) = ls.
+Proof. exact file_lines_concat. Qed.
+Print Assumptions C13_fgets_lines.
+
+(* ---- the hypotheses are satisfiable ---- *)
+Example libc_contract_satisfiable :
+  (forall n s, libc_range n s -> print_scaled n s = print_scaled n s) /\
+  (forall l me, parse_decimal l = Some me -> parse_decimal l = Some me) /\ libc_range (27315 + 0) 2.
+Proof. repeat split; auto; cbn; lia. Qed.
+Example compat_satisfiable : compat_all true true (nested_items false) nested_nodes /\ dset_ok true true (mkDS (mkH (repeat 0 17) None) [nested_items false] [nested_nodes]).
+Proof. exact compat_example. Qed.
+Example text_line_satisfiable : Forall text_line (print_dataset (mkH (4 :: repeat 0 16) None) [nested_items false]).
+Proof. exact text_line_example. Qed.
+Example item_ok_string_with_blanks_and_quotes :
+  item_ok true true (VT_STR 8) (mkDI 1015 false false 0 (Some [123;82;61;49;125]) (Some (5, 4)) (DV_str [32;65;34;125;32;66;32;32])).
+Proof. exact item_ok_example. Qed.
